@@ -135,24 +135,30 @@ func (e *elasticBulkDec) decodeLine(line []byte) error {
 func (e *elasticBulkDec) decodeCreateObj(dec *jx.Decoder) error {
 	target := e.ctx.ctxMap["target"]
 	e.labels = [][]string{{"type", "elastic"}}
-	if target != "" {
-		e.labels = append(e.labels, []string{"_index", target})
-	}
-	return dec.Obj(func(d *jx.Decoder, key string) error {
+	hasIndex := false
+	err := dec.Obj(func(d *jx.Decoder, key string) error {
 		tp := d.Next()
 		if tp != jx.String {
 			return d.Skip()
 		}
-		if (target != "" && key == "_index") || key == "type" {
+		if key == "type" {
 			return d.Skip()
 		}
 		val, err := dec.Str()
 		if err != nil {
 			return customErrors.NewUnmarshalError(err)
 		}
+		if key == "_index" {
+			hasIndex = true
+		}
 		e.labels = append(e.labels, []string{key, val})
 		return nil
 	})
+	// the target of the path is the default for actions that name no index
+	if err == nil && !hasIndex && target != "" {
+		e.labels = append(e.labels, []string{"_index", target})
+	}
+	return err
 }
 
 var ElasticBulkUnmarshalV2 = Build(
